@@ -621,6 +621,15 @@ char *readline(const char *prompt)
   sim_count(C_READLINE);
   const char *line;
   uint32_t pos = h->console_pos;
+  if (pos < W.console.size() && W.console[pos] == "\x04")
+  {
+    // scripted end of input (Ctrl-D): readline() returns NULL from here on
+    h->console_pos = (uint32_t)W.console.size() - 1;      // stay on the EOF entry
+    sim_event(SEAM_READLINE, pos, 4);
+    if (++W.eof_reads > 3) { sim_finish(HOW_QUIT_IGNORED, 0); }
+    if (prompt != NULL) { fputs(prompt, stdout); fputs("^D\n", stdout); }
+    return NULL;
+  }
   if (pos < W.console.size())
   {
     line = W.console[pos].c_str();
